@@ -217,4 +217,12 @@ theorem drain_closes (sh : Shape) : ∀ (fuel : Nat) (st : State sh),
     | false => simp [drain, hb, next_closes]
     | true => simp [drain, hb, ih, next_closes]
 
+/-- `FilterIter.Next` once the loop's answer is known (unfolding lemma that keeps `next s` folded) -/
+theorem next_filter_eq (p : Int → Bool) (s : Shape) (l : LSt) (i : State s) (r : State s × Bool × Int × Bool)
+    (he : filterLoop (next s) (val s) p (remaining s i + 1) i l.done l.val = some r) :
+    next (.filter p s) (l, i) = (({ l with done := r.2.1, val := r.2.2.1 }, r.1), r.2.2.2) := by
+  obtain ⟨a, b, c, d⟩ := r
+  simp [next, he]
+  rfl
+
 end C43
